@@ -614,6 +614,8 @@ def run(ctx):
                 recv_case(d + bytes(rng.randrange(256) for _ in range(k)), qk, 'extended')
             for i in range(hdr):                             # every header byte altered
                 vals = {d[i] ^ 1, d[i] ^ 0x80, rng.randrange(256), 0, 6, 7, (d[i] + 1) % 256, (d[i] - 1) % 256}
+                if q and 5 <= i < hdr - 1:
+                    vals = {d[i] ^ 1, d[i] ^ 0x80, rng.randrange(256), 0}     # ids / numbers / code bytes: not looked at
                 if i in (0, 3, 4, hdr - 1) and not q:
                     vals = set(range(256))
                 for b in sorted(vals - {d[i]}):
@@ -621,6 +623,34 @@ def run(ctx):
         for k in list(range(0, min(len(d), 34))) + [len(d)]:
             unpack_cases(d[:k])
         unpack_cases(d + b'\x00')
+    # the receive side as exhaustive as the send side: EVERY payload length 0..255 under each type and
+    # both quirk settings, through Rmcp._receive_ipmi_msg and IpmiMsg.unpack alone; around the
+    # signed-byte / length-byte boundaries also one-off length bytes, truncations and extensions
+    for n in range(0, 256):
+        for auth in (0, 2, 4):
+            d = spec_datagram(auth, rid(), rid(), pw_bytes(rng.choice(okpw)), bytes(rng.randrange(256) for _ in range(n)))
+            for qk in (False, True):
+                recv_case(d, qk, 'valid-len-all')
+                code, sdu = attempt(lambda: rmcp.IpmiMsg(ignore_sdu_length=qk).unpack(d[4:]))
+                if not (q and qk and n % 8 not in (0, 7)):       # quick: model comparison of unpack alone with the
+                    add('chk_ipmi_unpack %s %s %d %s' % (         # check disabled on a quarter of the lengths (the
+                        C.c_bool(qk), C.c_hex(d[4:]), code,       # oracle and chk_recv above see every length)
+                        c_sdu(None if sdu is None else bytes(sdu))), ('ipmi_unpack-len', qk, auth, n))
+                res.evaluations += 1
+                if n > 0 and (code != 0 or sdu is None or bytes(sdu) != d[-n:]) and 'IpmiMsg.unpack:valid' not in fails:
+                    fails['IpmiMsg.unpack:valid'] = C.Violation(
+                        key='IpmiMsg.unpack:valid', what='IpmiMsg(ignore_sdu_length=%s).unpack of a well-formed PDU (type %d, %d '
+                        'payload bytes): %s' % (qk, auth, n, 'exception class %d' % code if code else 'wrong payload'),
+                        replay={'oracle': 'recv', 'input': {'dgram': d.hex(), 'quirk': qk}})
+            if n in (0, 1, 126, 127, 128, 129, 254, 255):
+                hl = 4 + (10 if auth == 0 else 26)
+                for qk in (False, True):
+                    for k in (1, 2):
+                        recv_case(d[:len(d) - k] if n >= k else d[:hl], qk, 'boundary-truncated')
+                    for k in (1, 2, 3):
+                        recv_case(d + bytes(rng.randrange(256) for _ in range(k)), qk, 'boundary-extended')
+                    for delta in (1, -1, 128, 127):
+                        recv_case(d[:hl - 1] + bytes([(d[hl - 1] + delta) % 256]) + d[hl:], qk, 'boundary-length-byte')
     for _ in range(100 if q else 2000):                      # arbitrary bytes
         d = bytes(rng.randrange(256) for _ in range(rng.choice([0, 1, 3, 4, 5, 13, 14, 15, 30, 31, 40])))
         if len(d) > 3 and rng.random() < 0.8:
@@ -780,7 +810,8 @@ def run(ctx):
     res.histogram = D.hist
     res.rule = ('sent: every payload length 0..255 x {none, MD5, password}, boundary-biased 32-bit ids x sequence numbers, '
                 'activated / not, passwords None / str / bytes of 0..16 (and 17, 20) bytes, unsupported types, no session, '
-                'None and over-long payloads, every RMCP sequence number; received: per valid datagram every truncation, '
+                'None and over-long payloads, every RMCP sequence number; received: every payload length 0..255 x 3 types x both quirk '
+                'settings (valid; around 0/1/126..129/254/255 also truncated, extended, length byte off); per sampled datagram every truncation, '
                 '1..3-byte extension, every header byte altered, both quirk settings, random bytes; ASF ping, pongs valid / '
                 'truncated / extended / every byte altered; end to end: Rmcp.send_and_receive(req) for ~50 random registered '
                 'request classes with in-range values, random addresses / LUN / rq_seq, with and without session; histories in one process: Rmcp / IpmiMsg objects with different '
